@@ -9,9 +9,9 @@ VERIF = os.path.dirname(os.path.dirname(os.path.abspath(__file__)))
 
 def _repo_state():
   try:
-    head = subprocess.run(['git', '-C', '/repo', 'rev-parse', '--short', 'HEAD'],
+    head = subprocess.run(['git', '-C', os.environ.get('VERIF_REPO', '/repo'), 'rev-parse', '--short', 'HEAD'],
                           capture_output=True, text=True).stdout.strip()
-    dirty = subprocess.run(['git', '-C', '/repo', 'status', '--porcelain', '--', 'pyglove'],
+    dirty = subprocess.run(['git', '-C', os.environ.get('VERIF_REPO', '/repo'), 'status', '--porcelain', '--', 'pyglove'],
                            capture_output=True, text=True).stdout.strip()
     return head + ('+dirty' if dirty else '')
   except Exception:  # pylint: disable=broad-except
@@ -93,8 +93,9 @@ def write(prop, tier, seed, mod, results, known_seen, fixed, new_violations, err
       wall_s=round(wall_s, 2),
       violations=len({v['replay_sig'] for v in new_violations}),
   )
-  os.makedirs(os.path.join(VERIF, 'evidence'), exist_ok=True)
-  with open(os.path.join(VERIF, 'evidence', f'{prop}.json'), 'w') as f:
+  outdir = os.environ.get('VERIF_OUT', VERIF)
+  os.makedirs(os.path.join(outdir, 'evidence'), exist_ok=True)
+  with open(os.path.join(outdir, 'evidence', f'{prop}.json'), 'w') as f:
     json.dump(ev, f, indent=1, default=str)
 
 
